@@ -114,12 +114,14 @@ def pick_marks(rng, sim):
     return sim.close(m)
 
 
-def gen_case(rng, maxops, natural=None, f2=False):
+def gen_case(rng, maxops, natural=None, f2=False, alloc=False):
     where = rng.choice('MMTX')
     natural = (rng.random() < .25) if natural is None else natural
     mode = where + ('V' if natural else 'O') + ('R' if rng.random() < .3 else '')
     sim = Sim()
     ops, nid = [], 0
+    cid = 2000               # identities of objects allocated by destructors (alloc stream)
+    allocators = set()
     dropped = set()          # natural mode: references given up (and whatever they own)
     nops = rng.randrange(2, maxops)
     style = rng.choice(['boxes', 'boxes', 'mixed', 'cycles', 'plain'])
@@ -144,9 +146,16 @@ def gen_case(rng, maxops, natural=None, f2=False):
                 kind = 'raw'
             box = rng.random() < pbox
             tok = NEWOP[(kind, box)] + str(nid)
+            if alloc and kind != 'root' and rng.random() < .45:
+                # a destructor that allocates 1-3 managed objects nobody refers to
+                box = False
+                nch = rng.choice([1, 1, 2, 2, 3])
+                tok = ('a' if kind == 'managed' else 'q') + str(nid) + ''.join('+%d' % (cid + i) for i in range(nch))
+                cid += nch
+                allocators.add(nid)
             marks = set()
             if not natural and kind != 'raw':
-                marks = pick_marks(rng, sim)
+                marks = sim.close({o for o in sim.reg if sim.alive(o)}) if alloc else pick_marks(rng, sim)
                 if marks:
                     tok += ':' + ','.join(map(str, sorted(marks)))
             if natural:
@@ -188,7 +197,13 @@ def gen_case(rng, maxops, natural=None, f2=False):
                 continue
             o = rng.choice(cands)
             k = sim.kind[o]
-            ops.append(DELOP[k] + str(o))
+            tok = DELOP[k] + str(o)
+            if alloc and not natural:
+                # the destructor may allocate and so trigger a threshold collection: keep everything
+                keep = sim.close({x for x in sim.reg if sim.alive(x) and x != o})
+                if keep:
+                    tok += ':' + ','.join(map(str, sorted(keep)))
+            ops.append(tok)
             if k == 'raw':
                 sim.finalise(o)
             elif sim.running:
@@ -284,7 +299,7 @@ def ledger(step):
 
 
 def oracle(case, impl, spec):
-    if 'BAD' in spec:
+    if ';BAD' in spec:
         return None                      # not a well-formed history (use after delete, …)
     nev = len([t for t in model_ops(case)[1] if t[0] != 'u'])
     si, ss = steps(impl), spec.split(' ;;')[0].split(' | ') if nev else []
@@ -304,12 +319,38 @@ def oracle(case, impl, spec):
                 return 'step %d: object %d must have been finalised by now (deleted, owned by a deleted Box, or teardown) but its destructor ran %d times' % (n, o, led.get(o, (0, 0))[0])
     if len(si) != len(ss):
         return 'implementation transcript has %d steps, the history %d' % (len(si), len(ss))
+    # objects allocated by destructors are managed objects like any other: whatever exists before
+    # teardown must have been finalised by it
+    toks = [t for t in model_ops(case)[1] if t[0] != 'u']
+    if has_alloc(case) and toks and toks[-1][0] == 't' and len(si) >= 2:
+        ch = children(case)
+        before, after = ledger(si[-2]), ledger(si[-1])
+        late = []
+        for c in sorted(ch):
+            if c in before and after.get(c, (0, 0))[0] != 1:
+                return 'step %d: object %d (allocated by a destructor before teardown) was never finalised' % (len(si) - 1, c)
+            if c not in before and c in after and after[c][0] != 1:
+                late.append(c)
+        if late:
+            return 'F8: object %d was allocated by a destructor running during teardown and is left behind' % late[0]
     return None
 
 
+def has_alloc(case):
+    return '+' in case
+
+
+def children(case):
+    out = set()
+    for t in model_ops(case)[1]:
+        if '+' in t:
+            out |= {int(x) for x in re.findall(r'\+(\d+)', t.split(':')[0].split('@')[0])}
+    return out
+
+
 def corr(case, impl, model):
-    if 'BAD' in model:
-        return None
+    if ';BAD' in model or has_alloc(case):
+        return None                      # destructors that allocate are outside the model
     a = [norm_impl_step(x) for x in steps(impl)]
     nev = len([t for t in model_ops(case)[1] if t[0] != 'u'])
     b = model.split(' | ') if nev else []
@@ -334,7 +375,7 @@ def in_stop_window(case):
     rawbox, roots = set(), False
     for t in toks:
         c = t[0]
-        if c == 'W':
+        if c in 'Wq':
             rawbox.add(re.match(r'\d+', t[1:]).group(0))
         if c in 'NB':
             roots = True
@@ -342,16 +383,20 @@ def in_stop_window(case):
             stopped = True
         elif c == 'S':
             stopped = False
-        elif stopped and c in 'nbNBdD':
+        elif stopped and c in 'nbNBdDa':
             return True
-        elif stopped and c == 'x' and t[1:].split('@')[0] in rawbox:
+        elif stopped and c == 'x' and re.match(r'\d+', t[1:]).group(0) in rawbox:
             return True       # a raw Box issues `del` on what it owns
+        elif stopped and c in 'xct' and '+' in case:
+            return True       # a destructor may allocate while the collector is stopped
         elif stopped and c == 't' and roots:
             return True       # a swept Box issues `del` on a root it owns
     return False
 
 
 def classify(case, impl, why):
+    if why.startswith('F8:'):
+        return 'alloc-in-destructor-at-teardown'
     return 'del-while-gc-stopped' if in_stop_window(case) else None
 
 
@@ -380,6 +425,9 @@ CORPUS = [
     'MV|n1 n2 n3 u1 c t',
     'MO|n1 s w2 x2 S t',                            # a clean stop window
 ]
+# D22: destructors that allocate, nested collection inside the sweep (oracle only)
+CORPUS += ['MO|a1+2000+2001 a3+2002+2003:1 t', 'MVR|a1+2000 a2+2001+2002 t', 'MOR|w1 a2+2000+2001+2002 a3+2003:2 t',
+           'MO|a1+101+102:1 a2+103+104:1 a3+105+106:1,2 a4+107+108:1,2,3 a5+109+110:1,2,3,4 a6+111+112:1,2,3,4,5 c6 d6 c t']
 F2_WITNESS = 'MO|s n1 d1 S t'
 
 
@@ -430,9 +478,17 @@ def run(ctx):
     def run_spec(cs):
         sl = ctx.run_lines(drv, cs, args=['spec'])[1]
         ml = run_model(cs)
-        return [s + (' ;;BAD(model)' if 'BAD' in m else '') for s, m in zip(sl, ml)]
+        return [s + (' ;;BAD(model)' if (';BAD' in m and not has_alloc(c)) else '') for c, s, m in zip(cs, sl, ml)]
 
-    d = vlib.Differential(ctx, 'lifecycle', run_impl, run_model, run_spec, oracle, corr, nontrivial, split, join, classify)
+    class Diff(vlib.Differential):
+        """shrinking must stay outside the open findings: a candidate counts as failing only when
+        its failure is not one of the known signatures"""
+        def _fails_oracle(self, case):
+            i = self.run_impl([case]); sp = self.run_spec([case])
+            why = oracle(case, i[0], sp[0]) if i and sp else None
+            return bool(why) and classify(case, i[0], why) is None
+
+    d = Diff(ctx, 'lifecycle', run_impl, run_model, run_spec, oracle, corr, nontrivial, split, join, classify)
     rp = os.environ.get('VERIF_REPLAY')
     if rp:
         r = json.load(open(rp))
@@ -445,15 +501,17 @@ def run(ctx):
 
     # open finding F2: the recorded witness must still fail, and is reported as known
     for f in mine:
-        if f.get('status') == 'open' and f.get('signature') == 'del-while-gc-stopped':
+        if f.get('status') == 'open':
             il = run_impl([f['witness']]); sl = ctx.run_lines(drv, [f['witness']], args=['spec'])[1]
             why = oracle(f['witness'], il[0], sl[0])
             ctx.cov['evaluations'] += 1
-            if why:
+            if why and classify(f['witness'], il[0], why) == f.get('signature'):
                 ctx.known(f)
-                ctx.notes.append('F2 witness %s: %s' % (f['witness'], why))
+                ctx.notes.append('open finding, witness %s: %s' % (f['witness'], why))
+            elif why:
+                d.oracle_fail.append((f['witness'], il[0], None, sl[0], why))
             else:
-                ctx.notes.append('F2 witness %s no longer fails: the finding may have been repaired' % f['witness'])
+                ctx.notes.append('witness %s of open finding %s no longer fails: the finding may have been repaired' % (f['witness'], f.get('signature')))
 
     n = 1200 if quick else 100000
     maxops = 70 if quick else 110
@@ -465,6 +523,8 @@ def run(ctx):
             cases.append(gen_case(ctx.rng, maxops))
     # a thin stream inside the F2 signature: other violations there would be masked, so keep it small
     cases += [gen_case(ctx.rng, 20, natural=False, f2=True) for _ in range(20 if quick else 500)]
+    # destructors that allocate (oracle only: not modelled)
+    cases += [gen_case(ctx.rng, 40, alloc=True) for _ in range(300 if quick else 10000)]
     hist = {}
     for c in cases:
         for t in model_ops(c)[1]:
